@@ -24,6 +24,10 @@ for status in (200, 201, 299, 300, 404, 409, 429):
         if status > 299:
             d["error"] = {"type": "x", "reason": "r"}
         ITEMS.append(d)
+# failing items WITHOUT an error object (delete of a missing document: 404 / result not_found) and a successful item that carries one anyway
+ITEMS.append({"_index": "i", "_id": "1", "status": 404, "result": "not_found", "_shards": {"total": 2, "successful": 2, "failed": 0}})
+ITEMS.append({"_index": "i", "_id": "1", "status": 404, "result": "not_found"})
+ITEMS.append({"_index": "i", "_id": "1", "status": 200, "result": "noop", "error": None, "_shards": {"total": 2, "successful": 2, "failed": 0}})
 
 
 def structural_class_groups(pattern: str):
@@ -86,10 +90,20 @@ def run(chk):
                 return n
         raise AnchorMissing(f"loop over response['items'] in {f.name}")
 
+    def counter_names(f):
+        """(error counter, success counter): the locals reported under 'error-count' / 'success-count'."""
+        for n in walk_body(f):
+            if isinstance(n, ast.Dict):
+                d = {k.value: v for k, v in zip(n.keys, n.values) if isinstance(k, ast.Constant)}
+                if isinstance(d.get("error-count"), ast.Name) and isinstance(d.get("success-count"), ast.Name):
+                    return d["error-count"].id, d["success-count"].id
+        raise AnchorMissing(f"result dict with error-count / success-count in {f.name}")
+
     tables = {}
     for f in (det, simp):
         L = item_loop(f)
         itemv = L.target.id
+        ERRC, OKC = counter_names(f)
 
         def classify(item):
             env = {itemv: {"index": item}}
@@ -111,14 +125,14 @@ def run(chk):
                             for x, v in zip(t.elts, val):
                                 env[x.id] = v
                     elif isinstance(s, ast.AugAssign) and isinstance(s.target, ast.Name):
-                        if s.target.id == "bulk_error_count":
+                        if s.target.id == ERRC:
                             counters["err"] += 1
-                        elif s.target.id == "bulk_success_count":
+                        elif s.target.id == OKC:
                             counters["ok"] += 1
                     elif isinstance(s, ast.If):
                         txt = u(s.test)
                         relevant = any(k in txt for k in ("status", "_shards", "failed", "error")) or any(
-                            isinstance(x, ast.AugAssign) and isinstance(x.target, ast.Name) and x.target.id in ("bulk_error_count", "bulk_success_count") for x in ast.walk(s))
+                            isinstance(x, ast.AugAssign) and isinstance(x.target, ast.Name) and x.target.id in (ERRC, OKC) for x in ast.walk(s))
                         if not relevant:
                             continue
                         run_block(s.body if ev(s.test, env) else s.orelse)
@@ -134,7 +148,8 @@ def run(chk):
 
         rows = []
         for item in ITEMS:
-            inst = f"{f.name}: item status={item['status']} _shards={'absent' if '_shards' not in item else 'failed=' + str(item['_shards']['failed'])}"
+            inst = f"{f.name}: item status={item['status']} _shards={'absent' if '_shards' not in item else 'failed=' + str(item['_shards']['failed'])}" + \
+                ("" if ("error" in item) == (item["status"] > 299) else (" without error object" if "error" not in item else " with error: null"))
             want_fail = item["status"] > 299 or ("_shards" in item and item["_shards"]["failed"] > 0)
             try:
                 c = classify(item)
@@ -146,7 +161,7 @@ def run(chk):
             rows.append(got)
             ok = got == ("failed" if want_fail else "succeeded") and (not want_fail or c["details"] == 1)
             chk.ob("O19.1", inst, ok, L, f"counted as {got}" + (f", error details extracted {c['details']}x" if want_fail else "") + f"; full parse: {'failed' if want_fail else 'succeeded'}",
-                   key=f"{_R}:BulkIndex.{f.name}:item:{item['status']}|{'absent' if '_shards' not in item else item['_shards']['failed']}")
+                   key=f"{_R}:BulkIndex.{f.name}:item:{item['status']}|{'absent' if '_shards' not in item else item['_shards']['failed']}" + ("" if ("error" in item) == (item["status"] > 299) else "|odd-error"))
         tables[f.name] = rows
     chk.ob("O19.1", "detailed and fast path agree on every representative item", tables.get("detailed_stats") == tables.get("simple_stats"), det, "")
     for f in (det, simp):
@@ -154,12 +169,14 @@ def run(chk):
         ok = False
         if dicts:
             d = {k.value: v for k, v in zip(dicts[0].keys, dicts[0].values) if isinstance(k, ast.Constant)}
-            ok = u(d.get("success")) in ("bulk_error_count == 0", "0 == bulk_error_count", "not bulk_error_count") and u(d.get("success-count")) == "bulk_success_count" and u(d.get("error-count")) == "bulk_error_count"
+            ec_, oc_ = counter_names(f)
+            from sa import pat as _pat
+            ok = _pat.is_(d.get("success"), f"{ec_} == 0", f"not {ec_}", f"{ec_} < 1") and ec_ != oc_
         chk.ob("O19.1", f"{f.name}: success == (error count == 0); counts reported under their names", ok, dicts[0] if dicts else f, "")
-        inits = [n for n in walk_body(f) if isinstance(n, ast.Assign) and u(n.targets[0]) == "bulk_error_count" and source.is_const(n.value, 0)]
+        inits = [n for n in walk_body(f) if isinstance(n, ast.Assign) and u(n.targets[0]) == counter_names(f)[0] and source.is_const(n.value, 0)]
         chk.ob("O19.1", f"{f.name}: error count starts at 0", len(inits) == 1 and not guards(inits[0]), inits[0] if inits else f, "")
     # fast path: success count when no errors are flagged == bulk size (docs), reset to 0 before counting items
-    sdefs = [n for n in walk_body(simp) if isinstance(n, ast.Assign) and u(n.targets[0]) == "bulk_success_count"]
+    sdefs = [n for n in walk_body(simp) if isinstance(n, ast.Assign) and u(n.targets[0]) == counter_names(simp)[1]]
     ok = len(sdefs) == 2 and isinstance(sdefs[0].value, ast.IfExp) and u(sdefs[0].value.body) == params_of(simp)[1] and source.is_const(sdefs[1].value, 0) and bool(guards(sdefs[1]))
     chk.ob("O19.1", "fast path: success count == bulk size unless items are inspected (then recounted from 0)", ok, sdefs[0] if sdefs else simp, "")
     full = [n for n in walk_body(simp) if isinstance(n, ast.Call) and dotted(n.func) == "json.loads"]
@@ -294,6 +311,47 @@ def run(chk):
         ok = len(hs) == 1 and any(pol and u(t) == "results.get('hits') is None" for t, pol in guards(hs[0], stop=PL_))
         chk.ob("O19.6", f"{fname}: hit total taken from the first page only", ok, hs[0] if hs else PL_, "")
 
+    # ---- O19.7 flags accumulated over pages are sticky -------------------------------------------------------------------------------------------------
+    chk.rule("O19.7", "multi-page searches (scroll, search_after, composite): `timed_out` is true if ANY page reported it (a later page can only turn it on), `took` is summed", 5,
+             "an earlier page timed out, the last one did not: the reported flag says the search did not time out (a full parse of all pages says it did)")
+    from sa import pat as _p7
+    Q = rn.cls("Query")
+    n7 = 0
+    for fn in [n for n in ast.walk(Q) if isinstance(n, (ast.FunctionDef, ast.AsyncFunctionDef))]:
+        loops7 = [n for n in walk_body(fn) if isinstance(n, (ast.For, ast.While, ast.AsyncFor))]
+        if not loops7:
+            continue
+        names = {}
+        for d_ in [n for n in walk_body(fn) if isinstance(n, ast.Dict)]:
+            for k_, v_ in zip(d_.keys, d_.values):
+                if isinstance(k_, ast.Constant) and k_.value in ("timed_out", "took") and isinstance(v_, ast.Name):
+                    names[v_.id] = k_.value
+        for lp in loops7:
+            lv = lp.target.id if isinstance(lp, ast.For) and isinstance(lp.target, ast.Name) else None
+            for st_ in ast.walk(lp):
+                if not isinstance(st_, (ast.Assign, ast.AugAssign)) or source.enclosing_func(st_) is not fn or source.enclosing(st_, (ast.For, ast.While, ast.AsyncFor)) is not lp:
+                    continue
+                tg = st_.targets[0] if isinstance(st_, ast.Assign) else st_.target
+                role = names.get(tg.id) if isinstance(tg, ast.Name) else (tg.slice.value if isinstance(tg, ast.Subscript) and isinstance(tg.slice, ast.Constant) and tg.slice.value in ("timed_out", "took") else None)
+                if role is None:
+                    continue
+                if lv and _p7.guarded(st_, f"{lv} == 0", stop=lp) is not None:
+                    continue  # first page: plain initialisation
+                n7 += 1
+                acc = u(tg)
+                if role == "timed_out":
+                    v = st_.value
+                    sticky = (isinstance(st_, ast.Assign) and isinstance(v, ast.BoolOp) and isinstance(v.op, ast.Or) and any(u(x) == acc for x in v.values)) \
+                        or (isinstance(st_, ast.AugAssign) and isinstance(st_.op, ast.BitOr)) \
+                        or any(_p7.match(f_, "not E_a") is not None and _p7.match(f_, "not E_a")["a"] == acc for f_ in _p7.fact_nodes(st_, stop=lp)) \
+                        or (isinstance(v, ast.Call) and dotted(v.func) in ("max", "any") and acc in u(v))
+                    chk.ob("O19.7", f"{fn.name}: timed_out of a later page can only turn the flag on", sticky, st_, short(st_, 80) + ("" if sticky else " — the last page's value replaces an earlier `true`"),
+                           key=f"{_R}:Query.{fn.name}:sticky:timed_out")
+                else:
+                    summed = (isinstance(st_, ast.AugAssign) and isinstance(st_.op, ast.Add)) or (isinstance(st_, ast.Assign) and isinstance(st_.value, ast.BinOp) and isinstance(st_.value.op, ast.Add) and acc in u(st_.value))
+                    chk.ob("O19.7", f"{fn.name}: took is summed over the pages", summed, st_, short(st_, 80), key=f"{_R}:Query.{fn.name}:sum:took")
+    chk.ob("O19.7", "page accumulators located (scroll, search_after, composite)", n7 >= 5, Q, f"{n7} in-loop store(s)")
+
     # ---- O19.3 selective parser ------------------------------------------------------------------------------------------------------------------------------
     chk.rule("O19.3", "the selective parser matches requested properties / lists / objects on the full ijson prefix; member keys of a collected object are the prefix with the object's own path "
              "stripped; early exit only when all requested properties, lists and objects were seen; an incomplete document ends the scan silently", 7,
@@ -324,6 +382,44 @@ def run(chk):
         detail = u(k)
         ok = u(k) in (f"{pre}[len(in_object) + 1:]", f"{pre}.removeprefix(in_object + '.')", f"{pre}[len(in_object) + len('.'):]")
     chk.ob("O19.3", "member key == prefix with the object's own path stripped", ok, mk[0] if mk else PL, detail + ("" if ok else " — keys containing '.' are mangled / collide"))
+    # member values of a collected object, decided on VALUES: inside object `a`, a scalar event stores its value whatever that value is (false, 0, 0.0 and "" included);
+    # keys and container events store nothing
+    from sa import minieval as _me
+    from sa import pat as _pat
+    inobj = [n.targets[0].id for n in ast.walk(PL) if isinstance(n, ast.Assign) and isinstance(n.targets[0], ast.Name) and isinstance(n.value, ast.Name) and n.value.id == pre
+             and _pat.guarded(n, f"{evn} == 'start_map'", stop=PL) is not None]
+    init_env = {}
+    for n in pf.body:
+        if isinstance(n, ast.Assign) and len(n.targets) == 1 and isinstance(n.targets[0], ast.Name):
+            try:
+                init_env[n.targets[0].id] = _me.ev(n.value, {})
+            except _me.CannotEval:
+                pass
+    if len(set(inobj)) == 1:
+        EVENTS = [("boolean", False, True), ("boolean", True, True), ("integer", 0, True), ("integer", 7, True), ("double", 0.0, True), ("number", 0, True), ("string", "", True),
+                  ("string", "x", True), ("map_key", "k", False), ("start_array", None, False), ("end_array", None, False)]
+        for ev_name, v_, stored in EVENTS:
+            env_ = dict(init_env)
+            env_.update({pre: "a.k", evn: ev_name, val: v_, pp[1]: [], pp[2]: None, pp[3]: ["a"], inobj[0]: "a"})
+
+            def atom_p(n, env, env_=env_):
+                try:
+                    return bool(_me.ev(n, dict(env_)))
+                except _me.CannotEval:
+                    return None
+
+            try:
+                out_ = decide(PL.body, atom_p, {})
+            except (Unsupported, UnknownAtom) as e:
+                chk.unknown("O19.3", f"the event dispatch of parse() is not a decision over (prefix, event, value): {e}", PL)
+                break
+            got = [e_ for e_ in out_.effects if isinstance(e_, ast.Assign) and isinstance(e_.targets[0], ast.Subscript) and u(e_.value) == val and u(e_.targets[0].slice) != pre]
+            ok = (len(got) == 1) == stored
+            chk.ob("O19.3", f"object member: event {ev_name} value {v_!r} -> {'stored' if stored else 'nothing stored'}", ok, PL,
+                   ("stored" if got else "not stored") + ("" if ok else " — a falsy member value is dropped, so the extracted object differs from the fully parsed one (e.g. a composite after_key with false / 0 / '')"),
+                   key=f"{_R}:parse:member:{ev_name}|{v_!r}")
+    else:
+        chk.unknown("O19.3", "the variable holding the path of the object being collected could not be identified in parse()", PL)
     brk = [n for n in ast.walk(PL) if isinstance(n, ast.Break)]
     ok = False
     if len(brk) == 1:
